@@ -1,7 +1,7 @@
 """
 Creation and extension of validators, with implementations for existing drafts.
 """
-from collections.abc import Sequence
+from collections.abc import Mapping, Sequence
 from functools import lru_cache
 from urllib.parse import unquote, urldefrag, urljoin, urlsplit
 from urllib.request import urlopen
@@ -956,7 +956,8 @@ def validator_for(schema, default=_LATEST_VERSION):
             If unprovided, the default is to return the latest supported
             draft.
     """
-    if schema is True or schema is False or u"$schema" not in schema:
+    if not isinstance(schema, Mapping) or u"$schema" not in schema:
+        # (only an object can declare a ``$schema``)
         return default
     if schema[u"$schema"] not in meta_schemas:
         warn(
